@@ -3,7 +3,19 @@ C01 (payload classes) — the payload classes brought into the model survive wri
 
 Unit 1  `LayerInfoBlock` (Lr16 / Lr32): Model/PayloadLayerInfo.lean, Lemmas/PayloadLayerInfo{1,2}.lean.
 
-Reading guide
+Unit 2  the fixed-layout tagged-block payloads of psd/base.py, psd/tagged_blocks.py, psd/color.py:
+        Model/PayloadBase.lean (`PCodec`), Model/PayloadSimple.lean, Lemmas/PayloadBase.lean, Lemmas/PayloadSimple.lean.
+
+Reading guide (units 2-5)
+* every class is a `PCodec`: `c.enc v` is `v.tobytes(...)` (or `struct.error`), `c.dec` the reader at a cursor,
+  `c.consumed v` the number of written bytes the reader consumes (some writers end with `write_padding`; no payload
+  reader consumes that filler), `c.encW` the bytes with the count `write` returns.
+* `RoundTrip c` : anywhere in a stream · `RoundTripAtEnd c` : when nothing follows (the reader probes what follows:
+  `is_readable`, lenient `fp.read`) · `RewriteIdentical c` · `WrittenIsLength c` · `TaggedBlockPayload c` : as the payload
+  of a skeleton tagged block (`TaggedBlock.read` runs the payload reader on exactly the bytes of the length block).
+  The definitions are in Lemmas/PayloadBase.lean.
+
+Reading guide (unit 1)
 * `LayerInfoBlock.enc v pad li` is `li.tobytes(version=v, padding=pad)`, `LayerInfoBlock.dec v` is
   `LayerInfoBlock.read(fp, version=v)`. As in Props/C01.lean the value read back is the object *as the writer left
   it* (`blockRefresh`: `_update_channel_length` overwrites `channel_info.length` before the records are written);
@@ -17,6 +29,7 @@ Reading guide
 * WF tags as in Model/Psd.lean; the one (F) clause of this unit has the witness `layer_info_block_none_not_roundtrip`.
 -/
 import PsdVerif.Lemmas.PayloadLayerInfo2
+import PsdVerif.Lemmas.PayloadSimple
 import PsdVerif.Lemmas.PayloadSamples
 import PsdVerif.Model.PayloadTables
 
@@ -227,5 +240,268 @@ theorem tagged_block_payload_calls_tied :
       Generated.Payload.taggedBlockPayloadRead = Tables.taggedBlockPayloadRead := by decide +kernel
 
 theorem unit1_calls_tied : Generated.Payload.unit1Calls = Tables.unit1Calls := by decide +kernel
+
+/-! ## unit 2: fixed-layout payloads -/
+
+section unit2
+open PCodec
+
+/-! ### base.py -/
+
+theorem empty_element_roundtrip : RoundTrip EmptyElement.codec := roundTrip_of EmptyElement.rt
+theorem empty_element_rewrite_identical : RewriteIdentical EmptyElement.codec := rewriteIdentical_of EmptyElement.rt.atEnd
+theorem empty_element_written_is_length : WrittenIsLength EmptyElement.codec := writtenIsLength_of EmptyElement.count
+
+theorem numeric_element_roundtrip : RoundTrip NumericElement.codec := roundTrip_of NumericElement.rt
+theorem numeric_element_rewrite_identical : RewriteIdentical NumericElement.codec := rewriteIdentical_of NumericElement.rt.atEnd
+theorem numeric_element_written_is_length : WrittenIsLength NumericElement.codec := writtenIsLength_of NumericElement.count
+
+/-- also `ProtectedSetting`, which is an `IntegerElement` with properties -/
+theorem integer_element_roundtrip : RoundTrip IntegerElement.codec := roundTrip_of IntegerElement.rt
+theorem integer_element_rewrite_identical : RewriteIdentical IntegerElement.codec := rewriteIdentical_of IntegerElement.rt.atEnd
+theorem integer_element_written_is_length : WrittenIsLength IntegerElement.codec := writtenIsLength_of IntegerElement.count
+
+theorem short_integer_element_roundtrip : RoundTrip ShortIntegerElement.codec := roundTrip_of ShortIntegerElement.rt
+theorem short_integer_element_rewrite_identical : RewriteIdentical ShortIntegerElement.codec :=
+  rewriteIdentical_of ShortIntegerElement.rt.atEnd
+theorem short_integer_element_written_is_length : WrittenIsLength ShortIntegerElement.codec :=
+  writtenIsLength_of ShortIntegerElement.count
+
+theorem byte_element_roundtrip : RoundTrip ByteElement.codec := roundTrip_of ByteElement.rt
+theorem byte_element_rewrite_identical : RewriteIdentical ByteElement.codec := rewriteIdentical_of ByteElement.rt.atEnd
+theorem byte_element_written_is_length : WrittenIsLength ByteElement.codec := writtenIsLength_of ByteElement.count
+
+theorem boolean_element_roundtrip : RoundTrip BooleanElement.codec := roundTrip_of BooleanElement.rt
+theorem boolean_element_rewrite_identical : RewriteIdentical BooleanElement.codec := rewriteIdentical_of BooleanElement.rt.atEnd
+theorem boolean_element_written_is_length : WrittenIsLength BooleanElement.codec := writtenIsLength_of BooleanElement.count
+
+/-- written with padding `pw`, read with `pr` (`pr = 1`: the reader stops before the writer's filler; `pr = pw`: after it) -/
+theorem string_element_roundtrip (pw pr : Nat) : RoundTrip (StringElement.codec pw pr) := roundTrip_of (StringElement.rt pw pr)
+theorem string_element_rewrite_identical (pw pr : Nat) : RewriteIdentical (StringElement.codec pw pr) :=
+  rewriteIdentical_of (StringElement.rt pw pr).atEnd
+theorem string_element_written_is_length (pw pr : Nat) : WrittenIsLength (StringElement.codec pw pr) :=
+  writtenIsLength_of (StringElement.count pw pr)
+
+/-! ### color.py -/
+
+theorem color_roundtrip : RoundTrip Color.codec := roundTrip_of Color.rt
+theorem color_rewrite_identical : RewriteIdentical Color.codec := rewriteIdentical_of Color.rt.atEnd
+theorem color_written_is_length : WrittenIsLength Color.codec := writtenIsLength_of Color.count
+
+/-! ### tagged_blocks.py -/
+
+/-- `Bytes.read` is `fp.read(4)`: lenient, so the law is at the end of a stream (a value of at most four bytes) … -/
+theorem bytes_roundtrip_at_end : RoundTripAtEnd BytesElement.codec := roundTripAtEnd_of BytesElement.rt
+/-- … and anywhere for a value of exactly four bytes -/
+theorem bytes_roundtrip_four (v : B) (h4 : v.length = 4) (pre post : B) :
+    BytesElement.codec.dec (pre ++ v ++ post) pre.length = .ok (v, pre.length + 4) :=
+  BytesElement.rt_anywhere v h4 (At.intro pre v post)
+theorem bytes_rewrite_identical : RewriteIdentical BytesElement.codec := rewriteIdentical_of BytesElement.rt
+theorem bytes_written_is_length : WrittenIsLength BytesElement.codec := writtenIsLength_of BytesElement.count
+
+theorem sheet_color_setting_roundtrip : RoundTrip SheetColorSetting.codec := roundTrip_of SheetColorSetting.rt
+theorem sheet_color_setting_rewrite_identical : RewriteIdentical SheetColorSetting.codec :=
+  rewriteIdentical_of SheetColorSetting.rt.atEnd
+theorem sheet_color_setting_written_is_length : WrittenIsLength SheetColorSetting.codec :=
+  writtenIsLength_of SheetColorSetting.count
+
+theorem reference_point_roundtrip : RoundTrip ReferencePoint.codec := roundTrip_of ReferencePoint.rt
+theorem reference_point_rewrite_identical : RewriteIdentical ReferencePoint.codec := rewriteIdentical_of ReferencePoint.rt.atEnd
+theorem reference_point_written_is_length : WrittenIsLength ReferencePoint.codec := writtenIsLength_of ReferencePoint.count
+
+/-- the reader decides by the remaining length whether signature + blend mode and the sub type are present: at end only -/
+theorem section_divider_setting_roundtrip_at_end : RoundTripAtEnd SectionDividerSetting.codec :=
+  roundTripAtEnd_of SectionDividerSetting.rt
+theorem section_divider_setting_rewrite_identical : RewriteIdentical SectionDividerSetting.codec :=
+  rewriteIdentical_of SectionDividerSetting.rt
+theorem section_divider_setting_written_is_length : WrittenIsLength SectionDividerSetting.codec :=
+  writtenIsLength_of SectionDividerSetting.count
+
+theorem user_mask_roundtrip : RoundTrip UserMask.codec := roundTrip_of UserMask.rt
+theorem user_mask_rewrite_identical : RewriteIdentical UserMask.codec := rewriteIdentical_of UserMask.rt.atEnd
+theorem user_mask_written_is_length : WrittenIsLength UserMask.codec := writtenIsLength_of UserMask.count
+
+theorem filter_mask_roundtrip : RoundTrip FilterMask.codec := roundTrip_of FilterMask.rt
+theorem filter_mask_rewrite_identical : RewriteIdentical FilterMask.codec := rewriteIdentical_of FilterMask.rt.atEnd
+theorem filter_mask_written_is_length : WrittenIsLength FilterMask.codec := writtenIsLength_of FilterMask.count
+
+/-- `while is_readable(fp, 4)`: at end only -/
+theorem channel_blending_restrictions_roundtrip_at_end : RoundTripAtEnd ChannelBlendingRestrictionsSetting.codec :=
+  roundTripAtEnd_of ChannelBlendingRestrictionsSetting.rt
+theorem channel_blending_restrictions_rewrite_identical : RewriteIdentical ChannelBlendingRestrictionsSetting.codec :=
+  rewriteIdentical_of ChannelBlendingRestrictionsSetting.rt
+theorem channel_blending_restrictions_written_is_length : WrittenIsLength ChannelBlendingRestrictionsSetting.codec :=
+  writtenIsLength_of ChannelBlendingRestrictionsSetting.count
+
+/-- `while is_readable(fp, 8)`: at end only; the writer's filler (below 8 bytes) ends the loop -/
+theorem pixel_source_data2_roundtrip_at_end (pad : Nat) : RoundTripAtEnd (PixelSourceData2.codec pad) :=
+  roundTripAtEnd_of (PixelSourceData2.rt pad)
+theorem pixel_source_data2_rewrite_identical (pad : Nat) : RewriteIdentical (PixelSourceData2.codec pad) :=
+  rewriteIdentical_of (PixelSourceData2.rt pad)
+theorem pixel_source_data2_written_is_length (pad : Nat) : WrittenIsLength (PixelSourceData2.codec pad) :=
+  writtenIsLength_of (PixelSourceData2.count pad)
+
+/-- one item of the metadata block; `data` is a descriptor block (Props/C01Descriptor.lean), an integer or raw bytes -/
+theorem metadata_setting_roundtrip (tb : Descriptor.Tables) : RoundTrip (MetadataSetting.codec tb) :=
+  roundTrip_of (MetadataSetting.rt tb)
+theorem metadata_settings_roundtrip (tb : Descriptor.Tables) : RoundTrip (MetadataSettings.codec tb) :=
+  roundTrip_of (MetadataSettings.rt tb)
+theorem metadata_settings_rewrite_identical (tb : Descriptor.Tables) : RewriteIdentical (MetadataSettings.codec tb) :=
+  rewriteIdentical_of (MetadataSettings.rt tb).atEnd
+theorem metadata_settings_written_is_length (tb : Descriptor.Tables) : WrittenIsLength (MetadataSettings.codec tb) :=
+  writtenIsLength_of (MetadataSettings.count tb)
+
+theorem annotation_roundtrip : RoundTrip Annotation.codec := roundTrip_of Annotation.rt
+/-- the reader stops before the final `write_padding(fp, written, 4)` -/
+theorem annotations_roundtrip : RoundTrip Annotations.codec := roundTrip_of Annotations.rt
+theorem annotations_rewrite_identical : RewriteIdentical Annotations.codec := rewriteIdentical_of Annotations.rt.atEnd
+theorem annotations_written_is_length : WrittenIsLength Annotations.codec := writtenIsLength_of Annotations.count
+
+/-! ### as payloads of the skeleton's tagged block (`TYPES` of tagged_blocks.py, see `unit2_registry_tied`) -/
+
+theorem tagged_block_empty_element : TaggedBlockPayload EmptyElement.codec := taggedBlockPayload_of EmptyElement.rt.atEnd
+theorem tagged_block_integer_element : TaggedBlockPayload IntegerElement.codec := taggedBlockPayload_of IntegerElement.rt.atEnd
+theorem tagged_block_short_integer_element : TaggedBlockPayload ShortIntegerElement.codec :=
+  taggedBlockPayload_of ShortIntegerElement.rt.atEnd
+theorem tagged_block_byte_element : TaggedBlockPayload ByteElement.codec := taggedBlockPayload_of ByteElement.rt.atEnd
+/-- `luni`: written with the inner padding, read with the default padding 1 -/
+theorem tagged_block_string_element (pad : Nat) : TaggedBlockPayload (StringElement.codec (innerPad pad) 1) :=
+  taggedBlockPayload_of (StringElement.rt _ 1).atEnd
+theorem tagged_block_bytes : TaggedBlockPayload BytesElement.codec := taggedBlockPayload_of BytesElement.rt
+theorem tagged_block_sheet_color_setting : TaggedBlockPayload SheetColorSetting.codec :=
+  taggedBlockPayload_of SheetColorSetting.rt.atEnd
+theorem tagged_block_reference_point : TaggedBlockPayload ReferencePoint.codec := taggedBlockPayload_of ReferencePoint.rt.atEnd
+theorem tagged_block_section_divider_setting : TaggedBlockPayload SectionDividerSetting.codec :=
+  taggedBlockPayload_of SectionDividerSetting.rt
+theorem tagged_block_user_mask : TaggedBlockPayload UserMask.codec := taggedBlockPayload_of UserMask.rt.atEnd
+theorem tagged_block_filter_mask : TaggedBlockPayload FilterMask.codec := taggedBlockPayload_of FilterMask.rt.atEnd
+theorem tagged_block_channel_blending_restrictions : TaggedBlockPayload ChannelBlendingRestrictionsSetting.codec :=
+  taggedBlockPayload_of ChannelBlendingRestrictionsSetting.rt
+theorem tagged_block_pixel_source_data2 (pad : Nat) : TaggedBlockPayload (PixelSourceData2.codec (innerPad pad)) :=
+  taggedBlockPayload_of (PixelSourceData2.rt _)
+theorem tagged_block_metadata_settings (tb : Descriptor.Tables) : TaggedBlockPayload (MetadataSettings.codec tb) :=
+  taggedBlockPayload_of (MetadataSettings.rt tb).atEnd
+theorem tagged_block_annotations : TaggedBlockPayload Annotations.codec := taggedBlockPayload_of Annotations.rt.atEnd
+
+/-- the readers of the classes without trailing filler consume everything the writer wrote -/
+theorem unit2_consumes_all :
+    (∀ v, NumericElement.codec.consumed v = (NumericElement.codec.encT v).length) ∧
+    (∀ v, IntegerElement.codec.consumed v = (IntegerElement.codec.encT v).length) ∧
+    (∀ v, ShortIntegerElement.codec.consumed v = (ShortIntegerElement.codec.encT v).length) ∧
+    (∀ v, ByteElement.codec.consumed v = (ByteElement.codec.encT v).length) ∧
+    (∀ v, BooleanElement.codec.consumed v = (BooleanElement.codec.encT v).length) ∧
+    (∀ v, Color.codec.Fits v → Color.codec.consumed v = (Color.codec.encT v).length) ∧
+    (∀ v, SheetColorSetting.codec.consumed v = (SheetColorSetting.codec.encT v).length) ∧
+    (∀ v, ReferencePoint.codec.Fits v → ReferencePoint.codec.consumed v = (ReferencePoint.codec.encT v).length) ∧
+    (∀ v, UserMask.codec.Fits v → UserMask.codec.consumed v = (UserMask.codec.encT v).length) ∧
+    (∀ v, FilterMask.codec.Fits v → FilterMask.codec.consumed v = (FilterMask.codec.encT v).length) := by
+  refine ⟨fun v => (length_f64T v).symm, fun v => (length_beBytes 4 v).symm, ?_, ?_, ?_, ?_, ?_, ?_, ?_, ?_⟩
+  · intro v; simp [ShortIntegerElement.codec, length_beBytes, length_zeros]
+  · intro v; simp [ByteElement.codec, length_beBytes, length_zeros]
+  · intro v; simp [BooleanElement.codec, length_boolT, length_zeros]
+  · intro v hf; exact (Color.length_encT v hf).symm
+  · intro v; simp [SheetColorSetting.codec, length_beBytes, length_zeros]
+  · intro v hf
+    have hf : v.length = 2 := hf
+    simp [ReferencePoint.codec, length_listT_const f64T 8 v (fun x _ => length_f64T x), hf]
+  · intro v hf; simp [UserMask.codec, Color.length_encT v.color hf.1, length_beBytes, length_zeros]
+  · intro v hf; simp [FilterMask.codec, Color.length_encT v.color hf.1, length_beBytes]
+
+/-- what the filler-writing classes leave unread is the filler -/
+theorem unit2_filler :
+    (∀ pw s, (StringElement.codec pw 1).encT s = ((StringElement.codec pw 1).encT s).take ((StringElement.codec pw 1).consumed s) ++
+        zeros (padAmount (4 + 2 * (Unicode.encUnits s).length) pw)) ∧
+    (∀ pad vs, (PixelSourceData2.codec pad).encT vs = ((PixelSourceData2.codec pad).encT vs).take ((PixelSourceData2.codec pad).consumed vs) ++
+        zeros (padAmount ((PixelSourceData2.codec pad).consumed vs) pad)) ∧
+    (∀ x, Annotations.codec.encT x = (Annotations.codec.encT x).take (Annotations.codec.consumed x) ++
+        zeros (padAmount (Annotations.codec.consumed x) 4)) := by
+  refine ⟨?_, ?_, ?_⟩
+  · intro pw s
+    have hl := ustr_body_length s
+    simp only [StringElement.codec, ustrT, if_true, ← hl, List.take_left']
+  · intro pad vs
+    simp only [PixelSourceData2.codec, List.take_left']
+  · intro x
+    simp only [Annotations.codec, Annotations.encT, List.take_left']
+
+/-! ### non-vacuity: every optional branch -/
+
+theorem unit2_samples_wf :
+    Color.codec.Fits Samples.rgb ∧ Color.codec.Fits Samples.lab ∧ Color.codec.Fits Samples.customSpace ∧
+    SectionDividerSetting.codec.WF Samples.dividerKindOnly ∧ SectionDividerSetting.codec.WF Samples.dividerBlend ∧
+    SectionDividerSetting.codec.WF Samples.dividerSub ∧
+    (MetadataSettings.codec Descriptor.realTables).WF Samples.metadata ∧
+    (MetadataSettings.codec Descriptor.realTables).Fits Samples.metadata ∧
+    Annotations.codec.WF Samples.annotations ∧ Annotations.codec.Fits Samples.annotations ∧
+    (PixelSourceData2.codec 4).WF Samples.pixelSources ∧ (StringElement.codec 4 1).WF [0x4C, 0xD800, 0x1F600] := by
+  decide +kernel
+
+example : ∃ bs, SectionDividerSetting.codec.enc Samples.dividerSub = .ok bs ∧ bs.length = 16 ∧
+    SectionDividerSetting.codec.dec bs 0 = .ok (Samples.dividerSub, 16) := by
+  have henc : SectionDividerSetting.codec.enc Samples.dividerSub = .ok (SectionDividerSetting.encT Samples.dividerSub) := by
+    decide +kernel
+  refine ⟨_, henc, by decide +kernel, ?_⟩
+  have hc : SectionDividerSetting.codec.consumed Samples.dividerSub = 16 := by decide +kernel
+  simpa [hc] using section_divider_setting_roundtrip_at_end _ unit2_samples_wf.2.2.2.2.2.1 _ [] henc
+
+example : ∃ bs, (MetadataSettings.codec Descriptor.realTables).enc Samples.metadata = .ok bs ∧
+    (MetadataSettings.codec Descriptor.realTables).dec bs 0 = .ok (Samples.metadata, bs.length) := by
+  have hf := unit2_samples_wf.2.2.2.2.2.2.2.1
+  have henc : (MetadataSettings.codec Descriptor.realTables).enc Samples.metadata =
+      .ok ((MetadataSettings.codec Descriptor.realTables).encT Samples.metadata) := if_pos hf
+  refine ⟨_, henc, ?_⟩
+  have h := metadata_settings_roundtrip Descriptor.realTables _ unit2_samples_wf.2.2.2.2.2.2.1 _ [] [] henc
+  simp only [List.nil_append, List.append_nil, List.length_nil, Nat.zero_add] at h
+  rw [h]
+  simp only [MetadataSettings.codec, List.length_append, length_beBytes]
+
+example : ∃ bs, Annotations.codec.enc Samples.annotations = .ok bs ∧ bs.length % 4 = 0 ∧
+    Annotations.codec.dec bs 0 = .ok (Samples.annotations, Samples.annotations.bodyT.length) := by
+  have henc : Annotations.codec.enc Samples.annotations = .ok (Annotations.encT Samples.annotations) := by decide +kernel
+  refine ⟨_, henc, by decide +kernel, ?_⟩
+  have hc : Annotations.codec.consumed Samples.annotations = Samples.annotations.bodyT.length := rfl
+  simpa [hc] using annotations_roundtrip _ unit2_samples_wf.2.2.2.2.2.2.2.2.1 _ [] [] henc
+
+/-! ### points excluded by `WF` (evaluated here, replayed on the real code by the harness) -/
+
+/-- `SectionDividerSetting(kind, sub_type=5)`: without signature and blend mode the writer stores the kind only -/
+theorem section_divider_subtype_alone_not_roundtrip :
+    SectionDividerSetting.codec.enc Samples.dividerSubOnly = .ok [0, 0, 0, 1] ∧
+      SectionDividerSetting.codec.dec [0, 0, 0, 1] 0 = .ok (⟨1, none, none, none⟩, 4) := by decide +kernel
+
+/-- `SectionDividerSetting(kind, signature=b"8BIM")` without a blend mode: the signature is not stored either -/
+theorem section_divider_signature_alone_not_roundtrip :
+    SectionDividerSetting.codec.enc Samples.dividerSigOnly = .ok [0, 0, 0, 1] ∧
+      SectionDividerSetting.codec.dec [0, 0, 0, 1] 0 = .ok (⟨1, none, none, none⟩, 4) := by decide +kernel
+
+/-- `Bytes(b"\x01\x02\x03\x04\x05")`: five bytes are written, `fp.read(4)` returns four -/
+theorem bytes_longer_than_four_not_roundtrip :
+    BytesElement.codec.enc [1, 2, 3, 4, 5] = .ok [1, 2, 3, 4, 5] ∧
+      BytesElement.codec.dec [1, 2, 3, 4, 5] 0 = .ok ([1, 2, 3, 4], 4) := by decide +kernel
+
+/-- raw bytes under the key `cust`: the reader decodes the data of that key as a descriptor block and fails -/
+theorem metadata_raw_under_descriptor_key_not_roundtrip :
+    ∃ bs, (MetadataSetting.codec Descriptor.realTables).enc Samples.metadataMismatch = .ok bs ∧
+      Descriptor.errorOf ((MetadataSetting.codec Descriptor.realTables).dec bs 0) = some .ioError := by
+  refine ⟨(MetadataSetting.codec Descriptor.realTables).encT Samples.metadataMismatch, by decide +kernel, by decide +kernel⟩
+
+/-! ### ties to the regenerated tables -/
+
+theorem unit2_enums_tied :
+    Generated.Payload.sectionDividerKinds = Tables.sectionDividerKinds ∧ Generated.Payload.sheetColors = Tables.sheetColors ∧
+    Generated.Payload.colorSpaceLab = Tables.colorSpaceLab ∧ Generated.Payload.metadataSignatures = Tables.metadataSignatures ∧
+    Generated.Payload.metadataIntKeys = Tables.metadataIntKeys ∧
+    Generated.Payload.metadataDescriptorKeys = Tables.metadataDescriptorKeys ∧
+    Generated.Payload.annotationKinds = Tables.annotationKinds ∧ Generated.Payload.annotationMarkers = Tables.annotationMarkers := by
+  decide +kernel
+
+/-- which key of `tagged_blocks.TYPES` holds which of the modelled classes -/
+theorem unit2_registry_tied : Generated.Payload.unit2Registry = Tables.unit2Registry := by decide +kernel
+
+/-- every call of a `utils` primitive in `read` / `write` of the modelled classes, with its arguments (struct formats,
+`is_readable` sizes, length-block formats and paddings), in source order -/
+theorem unit2_calls_tied : Generated.Payload.unit2Calls = Tables.unit2Calls := by decide +kernel
+
+end unit2
 
 end PsdVerif.C01Payload
